@@ -214,13 +214,17 @@ def constraint_cases(draw: Any) -> dict[str, Any]:
     return {"kind": "constraints", "grammar": gname, "formulas": fms, "tree_seeds": draw(st.lists(st.integers(0, 10**6), min_size=6, max_size=6))}
 
 
+PARTY_CODE = "".join(
+    f"\nclass {pname}(FandangoParty):\n    def __init__(self):\n        super().__init__(connection_mode=ConnectionMode.{mode})\n"
+    f"    def send(self, message, recipient):\n        pass\n" for pname, mode in (("A", "OPEN"), ("B", "EXTERNAL")))
+
+
 def render_spec(spec: dict[str, Any]) -> str:
     if spec.get("parties"):
         lines = []
         for name, rhs in spec["rules"]:
             lines.append(f"<{name}> ::= " + _render_party(rhs))
-        code = "class A(NetworkParty):\n    def __init__(self):\n        super().__init__('tcp://localhost:1')\n"
-        return "\n".join(lines) + "\n"
+        return "\n".join(lines) + "\n" + PARTY_CODE
     return S.render(spec)
 
 
@@ -248,8 +252,13 @@ def check_case(case: dict[str, Any], ctx: Any = None) -> list[str]:
     except Exception as e:
         if ctx is not None:
             ctx.count(f"original_rejected:{type(e).__name__}")
+            ctx.count("original_rejected_why:" + ("no such child (static path check)" if "has no child" in str(e) else str(e)[:50]))
         return []
     p1 = printed(f1)
+    if case["kind"] == "grammar" and case["spec"].get("parties"):
+        # FandangoSpec.__repr__ prints the spec's python code in front of the grammar; the party classes are what
+        # makes the printed annotations readable again
+        p1 = PARTY_CODE + "\n" + p1
     try:
         f2 = Fandango(p1, use_stdlib=False, use_cache=False)
     except Exception as e:
